@@ -3,9 +3,12 @@ import Hms.Value.Cast
 # JSON: `MarshalValue`, `UnmarshalValue`, `TypeAwareUnmarshalValue` over a JSON *tree*
 
 The text layer (Go's `encoding/json`: printing, parsing, string escaping, number syntax) is
-trusted; what is modelled is the mapping between values and the `interface{}` tree. A number is
-a float64 after parsing, i.e. a `Dy`; `intLit` only records whether the marshaller wrote an
-integer literal (it is ignored by the unmarshallers and only matters for the text tie).
+trusted; what is modelled is the mapping between values and the `interface{}` tree. A number of a
+document comes in two kinds (J1: `parse_json` decodes with `UseNumber` and the spelling decides):
+`int i` is a number spelled as an integer (no `.`, `e`, `E`) which fits an int64 — `parse_json` reads
+it exactly; `num d _` is every other number, a float64 (`Dy`) after parsing (`intLit` records an
+integer spelling beyond the int64 range, or an integer literal written for a float; the
+unmarshallers ignore it). Hosts of the typed route still decode every number to a float64.
 
 Post-fix behaviour: X4 (the VM keeps `null`/`none` list elements, as the interpreter does), X24
 (both libraries write `none`/`null` object fields as `null` instead of leaving them out), X9 (a
@@ -18,6 +21,7 @@ inductive J where
   | null
   | bool (b : Bool)
   | num (d : Dy) (intLit : Bool)
+  | int (i : BitVec 64)
   | str (s : String)
   | arr (xs : Js)
   | obj (fs : JFields)
@@ -47,7 +51,7 @@ def marshalWith (floatInt : Dy → Bool) : Val → Option J
   | .null => .some .null
   | .none => .some .null
   | .some v => marshalWith floatInt v
-  | .int i => .some (.num (intToFlt i) true)          -- a JSON number is a float64 once parsed
+  | .int i => .some (.int i)                          -- written as an integer literal
   | .flt d => .some (.num d (floatInt d))
   | .bool b => .some (.bool b)
   | .str s => .some (.str s)
@@ -74,8 +78,8 @@ end
 
 /-- VM: `jsonFloat` always writes a fraction (`3.0`). -/
 def marshalVM : Val → Option J := marshalWith (fun _ => false)
-/-- interpreter: plain `float64`, `encoding/json` writes `3` for 3.0. -/
-def marshalTree : Val → Option J := marshalWith (fun d => d.isIntegral)
+/-- interpreter: `jsonFloat` as well, a fraction is always written. -/
+def marshalTree : Val → Option J := marshalWith (fun _ => false)
 
 /-! ## Untyped unmarshalling (`parse_json`): `UnmarshalValue` / `unmarshalValue` -/
 
@@ -83,7 +87,8 @@ mutual
 def unmarshalUntyped : J → Val
   | .null => .none
   | .bool b => .bool b
-  | .num d _ => if d.isIntegral then .int (fltToInt d) else .flt d     -- X5: 2.0 comes back as the int 2
+  | .num d _ => .flt d             -- J1: spelled with a fraction / an exponent (or beyond int64): a float
+  | .int i => .int i               -- J1: an integer spelling which fits an int is read exactly
   | .str s => .str s
   | .arr xs => .list (unmarshalUntypedList xs)
   | .obj fs => .obj (unmarshalUntypedFields fs)
@@ -113,6 +118,8 @@ def unmarshalTyped : Ty → J → Option Val
   | T, .bool b => match T with | .opt _ => .none | _ => .some (.bool b)
   | T, .null => match T with | .opt _ => .none | _ => .some .none
   | T, .num d _ => match T with | .opt _ => .none | .int => .some (.int (fltToInt d)) | _ => .some (.flt d)
+  -- the host decodes every number to a float64 first
+  | T, .int i => match T with | .opt _ => .none | .int => .some (.int (fltToInt (intToFlt i))) | _ => .some (.flt (intToFlt i))
   | .list t, .arr xs => (unmarshalTypedList (fun j => unmarshalTyped t j) xs).map .list
   | .obj tfs, .obj jfs => (unmarshalTypedFields tfs jfs).map .obj
   | _, .arr _ => .none
@@ -158,8 +165,28 @@ def jsonReprFields : TyFields → Fields → Bool
   | .cons k t rest, fs => (match fs.lookup k with | .some x => jsonRepr t x | .none => false) && jsonReprFields rest fs
 end
 
-/-! The in-program route (`to_json`, `parse_json`, annotated `let`) additionally loses the
-difference between 2.0 and 2 (X5, open): floats must not be integral. -/
+/-! `JsonReprProg T v`: the same for the route a program takes (`to_json`, `parse_json`, annotated
+`let` / `as`). Since J1 `parse_json` reads an integer spelling exactly: every int is representable
+there, not only those a float64 holds. -/
+mutual
+def jsonReprProg : Ty → Val → Bool
+  | .int, v => match v with | .int _ => true | _ => false
+  | .float, v => match v with | .flt _ => true | _ => false
+  | .bool, v => match v with | .bool _ => true | _ => false
+  | .str, v => match v with | .str _ => true | _ => false
+  | .list t, v => match v with | .list xs => xs.all (fun x => jsonReprProg t x) | _ => false
+  | .opt t, v => !t.nullish && (match v with | .none => true | .some x => jsonReprProg t x | _ => false)
+  | .obj tfs, v => match v with
+      | .obj fs => jsonReprProgFields tfs fs && fs.keys.all (fun k => tfs.hasKey k)
+      | _ => false
+  | _, _ => false
+def jsonReprProgFields : TyFields → Fields → Bool
+  | .nil, _ => true
+  | .cons k t rest, fs => (match fs.lookup k with | .some x => jsonReprProg t x | .none => false) && jsonReprProgFields rest fs
+end
+
+/-! Before J1 the in-program route (`to_json`, `parse_json`, annotated `let`) additionally lost the
+difference between 2.0 and 2 (X5): floats had to be non-integral. Kept for the driver's report. -/
 mutual
 def noIntegralFloat : Val → Bool
   | .flt d => !d.isIntegral
